@@ -163,7 +163,7 @@ def run(tier, v):
     t0 = time.time()
     cov = {"samples": [], "states": 0, "transitions": 0, "configs": {}}
     h = vlib.build_harness(["x03"])
-    nmix = 48 if quick else 3000
+    nmix = 48 if quick else 1500
     # the mixed sessions run alone (their schedules are perturbed by seeded delays, not by our own JVMs); the design-level
     # TLC runs and the steered / measuring drivers follow while the recordings are validated
     out_mix, s_mix, f_mix, scen_mix = _drive(h, "mix", nmix, 8 if quick else 16, merge=4 if quick else 0)
@@ -330,9 +330,11 @@ def run(tier, v):
         raise vlib.Infra("configuration `window` violates InbandIgnoredWhileTunnel in the model but the steered real sessions did not show it (code changed? update the model)")
     if hit_l == 0 and not v.violations and not any(k == KEY_LATE for k in v.known_hit):
         raise vlib.Infra("configuration `late` violates ResetClean in the model but the steered real sessions did not show it (code changed? update the model)")
-    if stuck and not v.violations:
-        raise vlib.Infra("%d session(s) did not finish within the driver's bounds (a time-out of the driver is not a verdict)" % stuck)
+    where = [(x["id"], x.get("stuck_at")) for sc in (scen_mix, scen_p, scen_w, scen_l) for x in sc.values() if not x.get("ok")]
     cov["stuck_sessions"] = stuck
+    cov["stuck_where"] = where[:10]
+    if stuck and not v.violations:
+        raise vlib.Infra("%d session(s) did not finish within the driver's bounds (a time-out of the driver is not a verdict): %s" % (stuck, where[:10]))
     return cov
 
 
